@@ -14,7 +14,7 @@ ID = "C02"
 TAG, EXTRACT, DRIVER = sc.TAG, sc.EXTRACT, sc.DRIVER
 COQ_FILES = ["FA/Proofs/SimplifyFacts.v", "FA/Proofs/EvalAgree.v", "FA/Proofs/SimplifySem.v", "FA/Proofs/RenameSem.v", "FA/Proofs/EvalRel.v",
              "FA/Proofs/SimplifyTotal.v", "FA/Proofs/SimplifyInv.v", "FA/Proofs/BindArgs.v", "FA/Proofs/SimplifyRules.v",
-             "FA/Proofs/SimplifySound.v", "FA/Properties/C02.v"]
+             "FA/Proofs/SimplifySound.v", "FA/Proofs/SimplifySession.v", "FA/Properties/C02.v"]
 
 LEVEL = ("Coq theorems about the executable model `simp` of simplify_chained_calls (Model/Simplify.v): whole-algorithm semantic preservation "
          "(simplifier_preserves_query_results: every fuel, stack, counter, backend, dataset; queries not mentioning First), every rewrite rule "
